@@ -32,6 +32,7 @@ def dispatch (cmd : String) (j : Json) : Except String Json :=
   | "regrid.f" => cmdRegrid (α := Float) j
   | "headmap.q" => cmdHeadmap (α := Rat) j
   | "solve.q" => cmdSolve (α := Rat) j
+  | "components.q" => cmdComponents (α := Rat) j
   | "residuals.q" => cmdResiduals (α := Rat) j
   | "assemble.q" => cmdAssemble (α := Rat) j
   | "refindex.q" => cmdRefIndex (α := Rat) j
